@@ -10,6 +10,7 @@ itself is not modelled here; the tie is impl-vs-proved-spec (see DESIGN.md).
 import LlgVerif.Proofs.CfgPrefixMain
 import LlgVerif.Proofs.Earley
 import LlgVerif.Proofs.EarleyPure
+import LlgVerif.Proofs.EarleyRowsWant
 namespace LlgVerif
 namespace Cfg
 
@@ -90,12 +91,10 @@ theorem c05_earley_rows_complete (g : Ey.CG) (lexs : List (List Nat))
   have hlen := (Ey.runRows_len g lexs)
   exact Ey.closed_complete g lexs _ (Ey.closed_of_check g lexs _ hc) j it hwant (by omega)
 
-/-- the compiled grammar accepts the scanned lexeme sets: a rule of the start symbol derives all of
-them.  `Ey.Seq`/`Ey.Der` read a nullable flag as an ε-rule of the symbol — `CGrammar` drops empty
-rules and keeps only the flag ("we handle the empty rule separately via is_nullable field"), so this
-*is* the compiled grammar's derivation relation. -/
-def Ey.Accepts (g : Ey.CG) (lexs : List (List Nat)) : Prop :=
-  ∃ r ∈ (g.sym g.start).rules, ∃ p, Ey.Seq g lexs r p 0 lexs.length ∧ g.atDot p = 0
+/-! `Ey.Accepts g lexs` (Proofs/EarleyViable.lean): a rule of the start symbol derives all of `lexs`.
+`Ey.Seq`/`Ey.Der` read a nullable flag as an ε-rule of the symbol — `CGrammar` drops empty rules and
+keeps only the flag ("we handle the empty rule separately via is_nullable field"), so this *is* the
+compiled grammar's derivation relation. -/
 
 /-- **C05 at the level of the parser's rows**: the last row is accepting exactly when the compiled
 grammar derives the scanned lexemes. -/
@@ -136,6 +135,42 @@ theorem c05_earley_accept_iff_pure (g : Ey.CG) (hw : g.wf = true) (hn : g.nullab
   · rintro ⟨r, hr, p, hseq, hdot⟩
     exact ⟨r, hr, p, Ey.seq_of_seqP hseq, hdot⟩
 
+/-- the rows of the model are exactly the Earley item sets -/
+theorem c05_earley_rows_exact (g : Ey.CG) (lexs : List (List Nat))
+    (hc : Ey.rowsClosed g lexs (Ey.runRows g lexs) = true) (j : Nat) (hj : j ≤ lexs.length) (it : Ey.Item) :
+    it ∈ (Ey.runRows g lexs).getD j [] ↔ Ey.Want g lexs j it := by
+  constructor
+  · intro h
+    exact Ey.runRows_want g lexs j (by rw [Ey.runRows_len]; omega) it h
+  · intro h
+    exact c05_earley_rows_complete g lexs hc j it h hj
+
+/-- **valid-prefix property of the rows** (the parser-level content of "no dead ends"): when every
+symbol that occurs in a right-hand side is productive, every item of every row lies on a derivation
+of some continuation — the lexemes read so far extend to an input the compiled grammar accepts. -/
+theorem c05_earley_rows_viable (g : Ey.CG) (hw : g.wf = true) (hp : g.allProductive = true)
+    (lexs : List (List Nat)) (j : Nat) (hj : j ≤ lexs.length) (it : Ey.Item)
+    (hit : it ∈ (Ey.runRows g lexs).getD j []) : ∃ v, Ey.Accepts g (lexs.take j ++ v) :=
+  Ey.want_viable g (Ey.wf_of_check g hw) (Ey.allProd_of_check g hp) lexs j it
+    (Ey.runRows_want g lexs j (by rw [Ey.runRows_len]; omega) it hit)
+
+/-- **a lexeme the last row allows can be continued**: if an item of the last row has a lexeme `l`
+after its dot, then `lexs` followed by `l` extends to an accepted input -/
+theorem c05_earley_allowed_lexeme_viable (g : Ey.CG) (hw : g.wf = true) (hp : g.allProductive = true)
+    (lexs : List (List Nat)) (it : Ey.Item) (l : Nat)
+    (hit : it ∈ (Ey.runRows g lexs).getD lexs.length [])
+    (hl : (g.sym (g.atDot it.1)).lexeme = some l) : ∃ v, Ey.Accepts g (lexs ++ [l] :: v) := by
+  have h0 := Ey.runRows_want g lexs lexs.length (by rw [Ey.runRows_len]; omega) it hit
+  have h1 := Ey.want_mono g lexs [[l]] lexs.length it h0
+  have h2 : Ey.Want g (lexs ++ [[l]]) (lexs.length + 1) (it.1 + 1, it.2) :=
+    Ey.Want.scan (p := it.1) (i := it.2) h1 hl (by simp [List.getD_eq_getElem?_getD]) (by simp)
+  obtain ⟨v, hv⟩ := Ey.want_viable g (Ey.wf_of_check g hw) (Ey.allProd_of_check g hp) _ _ _ h2
+  refine ⟨v, ?_⟩
+  have e : (lexs ++ [[l]]).take (lexs.length + 1) = lexs ++ [[l]] := by
+    rw [List.take_of_length_le (by simp)]
+  rw [e] at hv
+  simpa using hv
+
 /-! non-vacuity: `S → a S | ε` as a compiled grammar (symbol 0 is the null symbol, rules start at
 multiples of 4), input `a a`: all checks hold and the last row accepts -/
 def exCG : Ey.CG :=
@@ -143,7 +178,7 @@ def exCG : Ey.CG :=
     rhs := #[0, 0, 0, 0, 2, 1, 0, 0, 0, 0, 0, 0]
     lhsOf := #[0, 1, 1]
     syms := #[⟨[], false, none⟩, ⟨[4, 8], true, none⟩, ⟨[], false, some 0⟩] }
-example : exCG.wf = true ∧ exCG.nullableClosed = true ∧ exCG.nullableSound = true ∧
+example : exCG.wf = true ∧ exCG.nullableClosed = true ∧ exCG.nullableSound = true ∧ exCG.allProductive = true ∧
     Ey.rowsClosed exCG [[0], [0]] (Ey.runRows exCG [[0], [0]]) = true ∧
     Ey.accepting exCG (Ey.runRows exCG [[0], [0]]) = true := by decide
 
